@@ -462,30 +462,41 @@ func c18Agreement(c *Ctx) {
 		}
 		r.Check(len(seen) == 7, "C18-D2", fnName+":all-seven-days", p.Pos(fd.Pos()), "all seven weekdays are written", fmt.Sprintf("only %d weekdays are written when serialising", len(seen)))
 	}
-	// toDayConfigJSON: Start from start, End from end
-	if fd, _ := p.FuncDecl("schedule", "dayRange.toDayConfigJSON"); fd != nil {
-		ast.Inspect(fd.Body, func(n ast.Node) bool {
-			kv, ok := n.(*ast.KeyValueExpr)
+	// wherever a dayConfigJSON is written out: Start from .start, End from .end
+	nLit := 0
+	for _, f := range pk.Syntax {
+		ast.Inspect(f, func(n ast.Node) bool {
+			cl, ok := n.(*ast.CompositeLit)
 			if !ok {
 				return true
 			}
-			k, _ := kv.Key.(*ast.Ident)
-			if k == nil || (k.Name != "Start" && k.Name != "End") {
+			tv := pk.TypesInfo.TypeOf(cl)
+			if tv == nil || core.NamedKey(tv) != "schedule.dayConfigJSON" {
 				return true
 			}
-			got := ""
-			ast.Inspect(kv.Value, func(x ast.Node) bool {
-				if sel, ok := x.(*ast.SelectorExpr); ok && (sel.Sel.Name == "start" || sel.Sel.Name == "end") {
-					got = sel.Sel.Name
+			for _, el := range cl.Elts {
+				kv, ok := el.(*ast.KeyValueExpr)
+				if !ok {
+					continue
 				}
-				return true
-			})
-			r.Check(got == strings.ToLower(k.Name), "C18-D2", "toDayConfigJSON:"+k.Name, p.Pos(kv.Pos()), k.Name+" is written from ."+strings.ToLower(k.Name), k.Name+" is written from ."+got)
+				k, _ := kv.Key.(*ast.Ident)
+				if k == nil || (k.Name != "Start" && k.Name != "End") {
+					continue
+				}
+				got := ""
+				ast.Inspect(kv.Value, func(x ast.Node) bool {
+					if sel, ok := x.(*ast.SelectorExpr); ok && (sel.Sel.Name == "start" || sel.Sel.Name == "end") {
+						got = sel.Sel.Name
+					}
+					return true
+				})
+				nLit++
+				r.Check(got == strings.ToLower(k.Name), "C18-D2", "toDayConfigJSON:"+k.Name, p.Pos(kv.Pos()), k.Name+" is written from ."+strings.ToLower(k.Name), k.Name+" is written from ."+got)
+			}
 			return true
 		})
-	} else {
-		r.Undecided("C18-D2", "toDayConfigJSON", "-", "anchor not found")
 	}
+	r.Floor("C18-D2", "day-json-fields-written", nLit, 2)
 	// key sets of the two serialised forms agree
 	keysOfTags := func(typeName, tagKind string) []string {
 		o := pk.Types.Scope().Lookup(typeName)
@@ -600,15 +611,16 @@ func blockedServicesSchedule(c *Ctx, rule string) {
 
 func c18Shapes(c *Ctx) {
 	p, r := c.P, c.R
-	ct := p.Fn("(*schedule.dayRange).contains")
-	if ct == nil || len(ct.Params) != 2 {
+	// the range test: the function reachable from Weekly.Contains that compares a day range's bounds with a value
+	isField := func(v ssa.Value, name string) bool {
+		fr, _, ok := core.LoadedField(v)
+		return ok && fr.Type == "schedule.dayRange" && fr.Field == name
+	}
+	ct, offs := c18RangeTest(p)
+	if ct == nil || len(offs) == 0 {
 		r.Undecided("C18-D4", "dayRange.contains", "-", "anchor not found")
 	} else {
-		off := ct.Params[1]
-		isField := func(v ssa.Value, name string) bool {
-			fr, _, ok := core.LoadedField(v)
-			return ok && fr.Type == "schedule.dayRange" && fr.Field == name
-		}
+		off := offs[0]
 		var lower, upper bool
 		nCmp := 0
 		for _, b := range ct.Blocks {
@@ -622,13 +634,17 @@ func c18Shapes(c *Ctx) {
 				default:
 					continue
 				}
+				if !isField(bo.X, "start") && !isField(bo.X, "end") && !isField(bo.Y, "start") && !isField(bo.Y, "end") {
+					continue
+				}
 				nCmp++
+				isOff := func(v ssa.Value) bool { return core.SameValue(v, off) }
 				// start <= x  or  x >= start
-				if (bo.Op == token.LEQ && isField(bo.X, "start") && bo.Y == ssa.Value(off)) || (bo.Op == token.GEQ && bo.X == ssa.Value(off) && isField(bo.Y, "start")) {
+				if (bo.Op == token.LEQ && isField(bo.X, "start") && isOff(bo.Y)) || (bo.Op == token.GEQ && isOff(bo.X) && isField(bo.Y, "start")) {
 					lower = true
 				}
 				// x < end  or  end > x
-				if (bo.Op == token.LSS && bo.X == ssa.Value(off) && isField(bo.Y, "end")) || (bo.Op == token.GTR && isField(bo.X, "end") && bo.Y == ssa.Value(off)) {
+				if (bo.Op == token.LSS && isOff(bo.X) && isField(bo.Y, "end")) || (bo.Op == token.GTR && isField(bo.X, "end") && isOff(bo.Y)) {
 					upper = true
 				}
 			}
@@ -768,6 +784,17 @@ func c18Shapes(c *Ctx) {
 		}
 		return false, false
 	})
+	// the zero range may also be recognised field by field: start == 0 && end == 0
+	fieldZero := func(name string) map[core.Edge]bool {
+		g, _ := core.CondEdges(vf, func(a core.Atom) (bool, bool) {
+			if (a.Op == token.EQL || a.Op == token.NEQ) && isF(a.Base, name) && isConst(a.Other, 0) {
+				return true, a.Op == token.EQL
+			}
+			return false, false
+		})
+		return g
+	}
+	startZero, endZero := fieldZero("start"), fieldZero("end")
 	succ := func(in ssa.Instruction) bool { return isSuccessReturn(vf, in) }
 	for _, ck := range checks {
 		g, n := core.CondEdges(vf, ck.match)
@@ -775,10 +802,81 @@ func c18Shapes(c *Ctx) {
 			g[e] = true
 		}
 		off, ns := core.UnguardedSinks(vf, succ, g)
+		if len(off) > 0 && len(zeroEq) == 0 && len(startZero) > 0 && len(endZero) > 0 {
+			// a path is fine if it passed the check, or both field tests of the zero range
+			with := func(extra map[core.Edge]bool) map[core.Edge]bool {
+				m := map[core.Edge]bool{}
+				for e := range g {
+					m[e] = true
+				}
+				for e := range extra {
+					m[e] = true
+				}
+				return m
+			}
+			offS, _ := core.UnguardedSinks(vf, succ, with(startZero))
+			offE, _ := core.UnguardedSinks(vf, succ, with(endZero))
+			off = append(offS, offE...)
+		}
 		r.Check(n > 0 && ns > 0 && len(off) == 0, "C18-D4", "range-validator:"+ck.name, p.FnPos(vf),
 			"a range is accepted only if it is the zero range or passed the "+ck.name+" check",
 			"a non-zero range can be accepted without passing the "+ck.name+" check (inverted, negative or over-long ranges get through)", traceOf(p, off)...)
 	}
+}
+
+// c18RangeTest finds the function, among Weekly.Contains and what it calls in the package, that compares a day
+// range's bounds with a value, and the value(s) compared (the offset).  Nil when there is not exactly one such function.
+func c18RangeTest(p *core.Prog) (*ssa.Function, []ssa.Value) {
+	root := p.Fn("(*schedule.Weekly).Contains")
+	if root == nil {
+		return nil, nil
+	}
+	isF := func(v ssa.Value) bool {
+		fr, _, ok := core.LoadedField(v)
+		return ok && fr.Type == "schedule.dayRange" && (fr.Field == "start" || fr.Field == "end")
+	}
+	var found *ssa.Function
+	var offs []ssa.Value
+	fns := []*ssa.Function{}
+	for h := range core.StaticReach(root, 3) {
+		if core.PkgOf(h) == "schedule" {
+			fns = append(fns, h)
+		}
+	}
+	sort.Slice(fns, func(i, j int) bool { return core.FuncKey(fns[i]) < core.FuncKey(fns[j]) })
+	for _, h := range fns {
+		for _, b := range h.Blocks {
+			for _, in := range b.Instrs {
+				bo, ok := in.(*ssa.BinOp)
+				if !ok {
+					continue
+				}
+				switch bo.Op {
+				case token.LSS, token.LEQ, token.GTR, token.GEQ:
+				default:
+					continue
+				}
+				var other ssa.Value
+				switch {
+				case isF(bo.X) && !isF(bo.Y):
+					other = bo.Y
+				case isF(bo.Y) && !isF(bo.X):
+					other = bo.X
+				default:
+					continue
+				}
+				if _, isC := other.(*ssa.Const); isC {
+					continue
+				}
+				if found != nil && found != h {
+					return nil, nil
+				}
+				found = h
+				offs = append(offs, other)
+			}
+		}
+	}
+	return found, offs
 }
 
 // c18Contains: D5.
@@ -837,9 +935,34 @@ func c18Contains(c *Ctx) {
 	r.Floor("C18-D5", "time-accessors-in-Contains", n, 2)
 	// the offset handed to the range test is the wall-clock reading, not elapsed time since midnight
 	nC := 0
-	for _, call := range core.CallsTo(fn, "(*schedule.dayRange).contains") {
+	ct, offs := c18RangeTest(p)
+	type site struct {
+		v  ssa.Value
+		at ssa.Instruction
+	}
+	var sites []site
+	if len(offs) > 0 {
+		if prm, isPrm := offs[0].(*ssa.Parameter); isPrm && ct != fn {
+			idx := -1
+			for i, q := range ct.Params {
+				if q == prm {
+					idx = i
+				}
+			}
+			for _, call := range core.CallsTo(fn, core.FuncKey(ct)) {
+				if idx >= 0 && idx < len(call.Common.Args) {
+					sites = append(sites, site{call.Common.Args[idx], call.Instr})
+				}
+			}
+		} else if ct == fn {
+			if in, ok := offs[0].(ssa.Instruction); ok {
+				sites = append(sites, site{offs[0], in})
+			}
+		}
+	}
+	for _, st := range sites {
 		nC++
-		os := core.Origins(call.Arg(1), core.ProvOpts{Prog: p, Transparent: map[string]bool{"none": true}, IntoModuleCalls: true, InterprocDepth: 2})
+		os := core.Origins(st.v, core.ProvOpts{Prog: p, Transparent: map[string]bool{"none": true}, IntoModuleCalls: true, InterprocDepth: 2})
 		clock, elapsed := false, false
 		for _, o := range os {
 			if o.Kind != "call" {
@@ -852,7 +975,7 @@ func c18Contains(c *Ctx) {
 				elapsed = true
 			}
 		}
-		r.Check(clock && !elapsed, "C18-D5", "offset-is-wall-clock", p.InstrPos(call.Instr),
+		r.Check(clock && !elapsed, "C18-D5", "offset-is-wall-clock", p.InstrPos(st.at),
 			"the offset tested against the day range is the wall-clock time of day (Clock) in the schedule's zone",
 			"the offset tested against the day range is elapsed time since local midnight (Sub), not the wall-clock time of day: on 23/25-hour DST days ranges are shifted by an hour and a full-day range misses the last local hour")
 	}
